@@ -417,7 +417,50 @@ Definition upd1 (u p : val) (alloc : list addr) : prog (val * list addr) :=
 (* func.go deleteEmpty.  [owned_only] selects the variant that is in /repo:
      false — the function walks the WHOLE value and re-assigns every element (v[k] = deleteEmpty(w),
              v[j] = deleteEmpty(w)), also in containers that were never copied by the update;
-     true  — the repaired function returns at once on a container the allocator does not own. *)
+     true  — the repaired function returns at once on a container the allocator does not own.
+   The two loops take the recursive call as a parameter. *)
+(* for k, w := range v { if w == struct{}{} { delete(v, k) } else { v[k] = deleteEmpty(w) } } *)
+Fixpoint de_obj_loop (rec : val -> prog val) (a : addr) (v : val) (ks : list key) : prog val :=
+  match ks with
+  | [] => Ret v
+  | k :: r =>
+      Get a (fun c => match c with
+        | CMap m =>
+            match map_get k m with
+            | Some VEmpty => Put a (CMap (map_del k m)) (de_obj_loop rec a v r)
+            | Some w =>
+                w' <- rec w ;;
+                Get a (fun c => match c with
+                  | CMap m => Put a (CMap (map_set k w' m)) (de_obj_loop rec a v r)
+                  | _ => Fail end)
+            | None => de_obj_loop rec a v r
+            end
+        | _ => Fail end)
+  end.
+(* for _, w := range v { if w != struct{}{} { v[j] = deleteEmpty(w); j++ } }
+   for i := j; i < len(v); i++ { v[i] = nil }; return v[:j]        (n = elements still to visit) *)
+Fixpoint de_arr_loop (rec : val -> prog val) (a off len cap : nat) (n i j : nat) : prog val :=
+  match n with
+  | O =>
+      if j <? len then
+        Get a (fun c => match c with
+          | CArr cells => Put a (CArr (splice cells (off + j) (repeat VNull (len - j)))) (Ret (VArr a off j cap))
+          | _ => Fail end)
+      else Ret (VArr a off j cap)
+  | S n' =>
+      Get a (fun c => match c with
+        | CArr cells =>
+            match nth_error cells (off + i) with
+            | Some VEmpty => de_arr_loop rec a off len cap n' (S i) j
+            | Some w =>
+                w' <- rec w ;;
+                Get a (fun c => match c with
+                  | CArr cells => Put a (CArr (set_nth (off + j) w' cells)) (de_arr_loop rec a off len cap n' (S i) (S j))
+                  | _ => Fail end)
+            | None => Fail
+            end
+        | _ => Fail end)
+  end.
 Fixpoint delete_empty (owned_only : bool) (alloc : list addr) (fuel : nat) (v : val) : prog val :=
   match fuel with
   | O => Fail
@@ -427,49 +470,11 @@ Fixpoint delete_empty (owned_only : bool) (alloc : list addr) (fuel : nat) (v : 
       | VObj a =>
           if owned_only && negb (allocated alloc v) then Ret v else
           Get a (fun c => match c with
-            | CMap m0 =>
-                (fix loop (ks : list key) : prog val :=
-                   match ks with
-                   | [] => Ret v
-                   | k :: r =>
-                       Get a (fun c => match c with
-                         | CMap m =>
-                             match map_get k m with
-                             | Some VEmpty => Put a (CMap (map_del k m)) (loop r)
-                             | Some w =>
-                                 w' <- delete_empty owned_only alloc f w ;;
-                                 Get a (fun c => match c with
-                                   | CMap m => Put a (CMap (map_set k w' m)) (loop r)
-                                   | _ => Fail end)
-                             | None => loop r
-                             end
-                         | _ => Fail end)
-                   end) (map fst m0)
+            | CMap m0 => de_obj_loop (delete_empty owned_only alloc f) a v (map fst m0)
             | _ => Fail end)
       | VArr a off len cap =>
           if owned_only && negb (allocated alloc v) then Ret v else
-          (fix loop (n i j : nat) : prog val :=
-             match n with
-             | O =>
-                 if j <? len then
-                   Get a (fun c => match c with
-                     | CArr cells => Put a (CArr (splice cells (off + j) (repeat VNull (len - j)))) (Ret (VArr a off j cap))
-                     | _ => Fail end)
-                 else Ret (VArr a off j cap)
-             | S n' =>
-                 Get a (fun c => match c with
-                   | CArr cells =>
-                       match nth_error cells (off + i) with
-                       | Some VEmpty => loop n' (S i) j
-                       | Some w =>
-                           w' <- delete_empty owned_only alloc f w ;;
-                           Get a (fun c => match c with
-                             | CArr cells => Put a (CArr (set_nth (off + j) w' cells)) (loop n' (S i) (S j))
-                             | _ => Fail end)
-                       | None => Fail
-                       end
-                   | _ => Fail end)
-             end) len 0 0
+          de_arr_loop (delete_empty owned_only alloc f) a off len cap len 0 0
       | _ => Ret v
       end
   end.
